@@ -1419,7 +1419,12 @@ class Kconfig(object):
                         if new_name:
                             new_sym = get_sym(new_name)
                             if new_sym and new_sym.nodes:
-                                if self._deprecated_options.is_inversion(name) and new_sym.orig_type == BOOL:
+                                # Only a bool value can be inverted: anything else is rejected below, as for the new name
+                                if (
+                                    self._deprecated_options.is_inversion(name)
+                                    and new_sym.orig_type == BOOL
+                                    and val.startswith(("y", "n"))
+                                ):
                                     val = "n" if val.startswith("y") else "y"
                                 log.note(
                                     f"{escape(filename)}:{linenr}: {self.config_prefix + name} was replaced with "
